@@ -1,6 +1,7 @@
 package sim
 
 import (
+	"fmt"
 	"time"
 
 	"pgregory.net/rapid"
@@ -28,6 +29,7 @@ var defaultWeights = map[string]int{
 	"cancel": 3, "requeue": 3, "resume": 2, "dlq_requeue": 2, "dlq_delete": 2,
 	"cancel_f": 2, "requeue_f": 2, "resume_f": 1,
 	"list": 2, "list_dead": 1, "stats": 1, "lookup": 1,
+	"attempt": 3, "list_attempts": 2,
 }
 
 var genRoutes = []string{"/r0", "/r1", "/r2"}
@@ -263,6 +265,19 @@ func (g *storeGen) step() Step {
 		s.Filter = g.filterSpec(lbl, false)
 	case "list", "list_dead":
 		s.Filter = g.filterSpec(lbl, true)
+	case "attempt":
+		s.Route = rapid.SampledFrom(genRoutes[:2]).Draw(t, lbl+".route")
+		s.Target = rapid.SampledFrom(genTargets[1:]).Draw(t, lbl+".target")
+		s.Batch = rapid.IntRange(0, 11).Draw(t, lbl+".n")
+		s.D = rapid.SampledFrom([]time.Duration{0, 0, -time.Second, -10 * time.Second, -30 * time.Second, time.Second}).Draw(t, lbl+".at")
+	case "list_attempts":
+		if rapid.Bool().Draw(t, lbl+".r?") {
+			s.Route = rapid.SampledFrom(genRoutes[:2]).Draw(t, lbl+".route")
+		}
+		if rapid.IntRange(0, 3).Draw(t, lbl+".e?") == 0 {
+			s.Reason = fmt.Sprintf("evt-%d", rapid.IntRange(0, 2).Draw(t, lbl+".event"))
+		}
+		s.Batch = rapid.SampledFrom([]int{0, 1, 1, 2, 3, 5}).Draw(t, lbl+".limit")
 	case "stats":
 	}
 	return s
